@@ -10,33 +10,65 @@ use lattices::map_union::MapUnion;
 use lattices::set_union::SetUnion;
 use lattices::union_find::UnionFind;
 use lattices::{Conflict, DomPair, Max, Min, Pair, VecUnion, WithBot, WithTop};
-use vcommon::Value;
 
-use crate::checks::*;
+use lattices::{Atomize, IsBot, IsTop, Merge};
+
+use crate::checks::{Entry, Obs, ty};
+use crate::obs::*;
 use crate::hist::{Family, HasOps, Ops, can_build, conv, merge_from, mk_rep, via};
 use crate::lat::{D2, D3, Lat, T3};
 use crate::model::R;
 
-pub struct Entry {
-    pub prop: &'static str,
-    pub check: &'static str,
-    pub family: String,
-    pub run: fn(&mut Ctx, Option<&Value>),
-}
-
-fn e1<A: Lat>(prop: &'static str, check: &'static str, run: fn(&mut Ctx, Option<&Value>)) -> Entry {
-    Entry { prop, check, family: A::name(), run }
-}
-fn e2<A: Lat, B: Lat>(prop: &'static str, check: &'static str, run: fn(&mut Ctx, Option<&Value>)) -> Entry {
-    Entry { prop, check, family: format!("{}|{}", A::name(), B::name()), run }
-}
-
 macro_rules! each {
-    ($v:ident, $prop:expr, $f:ident, [$($A:ty),* $(,)?]) => { $( $v.push(e1::<$A>($prop, stringify!($f), $f::<$A>)); )* };
+    ($v:ident, $k:ident, [$($A:ty),* $(,)?]) => { $( $v.push($k::<$A>()); )* };
 }
 macro_rules! cross {
-    ($v:ident, $prop:expr, $f:ident, [$($A:ty),* $(,)?], $bs:tt) => { $( cross!(@row $v, $prop, $f, $A, $bs); )* };
-    (@row $v:ident, $prop:expr, $f:ident, $A:ty, [$($B:ty),* $(,)?]) => { $( $v.push(e2::<$A, $B>($prop, stringify!($f), $f::<$A, $B>)); )* };
+    ($v:ident, $k:ident, [$($A:ty),* $(,)?], $bs:tt) => { $( cross!(@row $v, $k, $A, $bs); )* };
+    (@row $v:ident, $k:ident, $A:ty, [$($B:ty),* $(,)?]) => { $( $v.push($k::<$A, $B>()); )* };
+}
+
+fn k_c01<A: Lat + Merge<A> + PartialEq>() -> Entry {
+    Entry { prop: "C01", check: "c01", t: ty::<A>(), o: None, obs: Obs::C01 { law: obs_c01::<A>, strict: true } }
+}
+fn k_c01_record<A: Lat + Merge<A> + PartialEq>() -> Entry {
+    Entry { prop: "C01", check: "c01", t: ty::<A>(), o: None, obs: Obs::C01 { law: obs_c01::<A>, strict: false } }
+}
+fn k_c01h<A: Lat + Merge<B>, B: Lat>() -> Entry {
+    Entry { prop: "C01", check: "c01h", t: ty::<A>(), o: Some(ty::<B>()), obs: Obs::C01h(obs_c01h::<A, B>) }
+}
+fn k_c02<A: Lat + Merge<B>, B: Lat>() -> Entry {
+    Entry { prop: "C02", check: "c02", t: ty::<A>(), o: Some(ty::<B>()), obs: Obs::C02(obs_c02::<A, B>) }
+}
+fn k_c02s<A: Lat + Merge<A>>() -> Entry {
+    k_c02::<A, A>()
+}
+fn k_c03<A: Lat + PartialOrd<B> + PartialEq<B>, B: Lat>() -> Entry {
+    Entry { prop: "C03", check: "c03", t: ty::<A>(), o: Some(ty::<B>()), obs: Obs::C03(obs_c03::<A, B>) }
+}
+fn k_c03s<A: Lat + PartialOrd<A> + PartialEq<A>>() -> Entry {
+    k_c03::<A, A>()
+}
+fn k_c03n<A: Lat + Merge<B> + PartialOrd<B>, B: Lat + Merge<A>>() -> Entry {
+    Entry { prop: "C03", check: "c03n", t: ty::<A>(), o: Some(ty::<B>()), obs: Obs::C03n(obs_c03n::<A, B>) }
+}
+fn k_c03ns<A: Lat + Merge<A> + PartialOrd<A>>() -> Entry {
+    k_c03n::<A, A>()
+}
+fn k_c03t<A: Lat + PartialOrd<A> + PartialEq<A>>() -> Entry {
+    Entry { prop: "C03", check: "c03t", t: ty::<A>(), o: None, obs: Obs::C03t(obs_c03::<A, A>) }
+}
+fn k_c03u<A: Lat + IsBot + IsTop>() -> Entry {
+    Entry { prop: "C03", check: "c03u", t: ty::<A>(), o: None, obs: Obs::C03u(obs_c03u::<A>) }
+}
+fn k_c03d<A: Lat + IsBot + Default>() -> Entry {
+    Entry { prop: "C03", check: "c03d", t: ty::<A>(), o: None, obs: Obs::C03d(obs_c03d::<A>) }
+}
+fn k_c06<A>() -> Entry
+where
+    A: Lat + Atomize + Default + IsBot,
+    A::Atom: Lat,
+{
+    Entry { prop: "C06", check: "c06", t: ty::<A>(), o: None, obs: Obs::C06(obs_c06::<A>) }
 }
 
 // ---------------------------------------------------------------------------------------------
@@ -113,7 +145,6 @@ pub type PB = Pair<SB, XU>;
 pub type PS = Pair<SS, XU>;
 pub type PTX = Pair<TXB, Max<bool>>;
 pub type PHH = Pair<SH, SH>;
-pub type PBS = Pair<SB, SS>;
 // dom pairs
 pub type DA = DomPair<XU, SH>;
 pub type DB = DomPair<XU, SB>;
@@ -277,97 +308,97 @@ pub fn entries() -> Vec<Entry> {
     let mut v: Vec<Entry> = vec![];
 
     // ---- C01: every self-capable type (merge with itself)
-    each!(v, "C01", c01, [
+    each!(v, k_c01, [
         SH, SB, MHH, MBB, NHX, NBX, PHW, PBW, QH, QB, RH, RB_,
         XU, Max<i8>, Max<bool>, Max<char>, Max<u64>, Min<u8>, Min<i8>, Min<bool>, Min<char>, Min<u64>,
         WH, WB, WXU, WXB, TH, TB, TXU, TXB, TNB, WTH, TWH, WWH, WTX,
         PA, PB, PTX, PHH, DA, DB, DN, DX, VX, VH, VB, VM, VW, UH, UB, CF, D2H, D2B, D3, T3A, T3B, ()
     ]);
-    each!(v, "C01", c01_record, [DP]);
+    each!(v, k_c01_record, [DP]);
     // heterogeneous operands
-    cross!(v, "C01", c01h, [SH, SB], [SV, SRaw, SA2, SS, SO]);
-    cross!(v, "C01", c01h, [MHH, MBB], [MVH, MA2S, MSS, MSH, MOO]);
-    cross!(v, "C01", c01h, [NHX, NBX], [NVX, NA2X, NSX, NOX]);
-    cross!(v, "C01", c01h, [PHW], [PVW, PSW]);
-    cross!(v, "C01", c01h, [QH], [QS, QB]);
-    cross!(v, "C01", c01h, [WH], [WS, WO, WB]);
-    cross!(v, "C01", c01h, [TH], [TS, TB]);
-    cross!(v, "C01", c01h, [PA], [PS, PB]);
-    cross!(v, "C01", c01h, [DA], [DS, DB]);
-    cross!(v, "C01", c01h, [VH], [VS, VB]);
-    cross!(v, "C01", c01h, [UH, UB], [UV, UA2, US, UO]);
-    cross!(v, "C01", c01h, [D2H], [D2S, D2B]);
-    cross!(v, "C01", c01h, [T3A], [T3S, T3B]);
+    cross!(v, k_c01h, [SH, SB], [SV, SRaw, SA2, SS, SO]);
+    cross!(v, k_c01h, [MHH, MBB], [MVH, MA2S, MSS, MSH, MOO]);
+    cross!(v, k_c01h, [NHX, NBX], [NVX, NA2X, NSX, NOX]);
+    cross!(v, k_c01h, [PHW], [PVW, PSW]);
+    cross!(v, k_c01h, [QH], [QS, QB]);
+    cross!(v, k_c01h, [WH], [WS, WO, WB]);
+    cross!(v, k_c01h, [TH], [TS, TB]);
+    cross!(v, k_c01h, [PA], [PS, PB]);
+    cross!(v, k_c01h, [DA], [DS, DB]);
+    cross!(v, k_c01h, [VH], [VS, VB]);
+    cross!(v, k_c01h, [UH, UB], [UV, UA2, US, UO]);
+    cross!(v, k_c01h, [D2H], [D2S, D2B]);
+    cross!(v, k_c01h, [T3A], [T3S, T3B]);
 
     // ---- C02: every (Self, Other) for which Merge<Other> exists in the table
-    cross!(v, "C02", c02, [SH, SB], [SH, SB, SV, SRaw, SA1, SA2, SA3, SS, SO, SE]);
-    cross!(v, "C02", c02, [MHH, MBB], [MHH, MBB, MVH, MA2S, MA1B, MSS, MSH, MOO, MEH]);
-    cross!(v, "C02", c02, [NHX, NBX], [NHX, NBX, NVX, NA2X, NSX, NOX]);
-    cross!(v, "C02", c02, [PHW, PBW], [PHW, PBW, PVW, PSW]);
-    cross!(v, "C02", c02, [QH, QB], [QH, QB, QS]);
-    cross!(v, "C02", c02, [RH, RB_], [RH, RB_, RS]);
-    each!(v, "C02", c02_self, [XU, Max<i8>, Max<bool>, Max<char>, Max<u64>, Min<u8>, Min<i8>, Min<bool>, Min<char>, Min<u64>, WXU, WXB, TXU, TXB, TNB, WWH, WTX, PTX, PHH, DX, VX, VW, CF, D3, ()]);
-    cross!(v, "C02", c02, [WH, WB], [WH, WB, WS, WO]);
-    cross!(v, "C02", c02, [TH, TB], [TH, TB, TS]);
-    cross!(v, "C02", c02, [WTH, WTB], [WTH, WTB, WTS]);
-    cross!(v, "C02", c02, [TWH], [TWH, TWS]);
-    cross!(v, "C02", c02, [PA, PB], [PA, PB, PS]);
-    cross!(v, "C02", c02, [DA, DB], [DA, DB, DS]);
-    cross!(v, "C02", c02, [DN], [DN, DNS]);
-    cross!(v, "C02", c02, [DP], [DP, DPS]);
-    cross!(v, "C02", c02, [VH, VB], [VH, VB, VS]);
-    cross!(v, "C02", c02, [VM], [VM, VMS]);
-    cross!(v, "C02", c02, [UH, UB], [UH, UB, UV, UA2, US, UO, UE]);
-    cross!(v, "C02", c02, [D2H, D2B], [D2H, D2B, D2S]);
-    cross!(v, "C02", c02, [T3A, T3B], [T3A, T3B, T3S]);
+    cross!(v, k_c02, [SH, SB], [SH, SB, SV, SRaw, SA1, SA2, SA3, SS, SO, SE]);
+    cross!(v, k_c02, [MHH, MBB], [MHH, MBB, MVH, MA2S, MA1B, MSS, MSH, MOO, MEH]);
+    cross!(v, k_c02, [NHX, NBX], [NHX, NBX, NVX, NA2X, NSX, NOX]);
+    cross!(v, k_c02, [PHW, PBW], [PHW, PBW, PVW, PSW]);
+    cross!(v, k_c02, [QH, QB], [QH, QB, QS]);
+    cross!(v, k_c02, [RH, RB_], [RH, RB_, RS]);
+    each!(v, k_c02s, [XU, Max<i8>, Max<bool>, Max<char>, Max<u64>, Min<u8>, Min<i8>, Min<bool>, Min<char>, Min<u64>, WXU, WXB, TXU, TXB, TNB, WWH, WTX, PTX, PHH, DX, VX, VW, CF, D3, ()]);
+    cross!(v, k_c02, [WH, WB], [WH, WB, WS, WO]);
+    cross!(v, k_c02, [TH, TB], [TH, TB, TS]);
+    cross!(v, k_c02, [WTH, WTB], [WTH, WTB, WTS]);
+    cross!(v, k_c02, [TWH], [TWH, TWS]);
+    cross!(v, k_c02, [PA, PB], [PA, PB, PS]);
+    cross!(v, k_c02, [DA, DB], [DA, DB, DS]);
+    cross!(v, k_c02, [DN], [DN, DNS]);
+    cross!(v, k_c02, [DP], [DP, DPS]);
+    cross!(v, k_c02, [VH, VB], [VH, VB, VS]);
+    cross!(v, k_c02, [VM], [VM, VMS]);
+    cross!(v, k_c02, [UH, UB], [UH, UB, UV, UA2, US, UO, UE]);
+    cross!(v, k_c02, [D2H, D2B], [D2H, D2B, D2S]);
+    cross!(v, k_c02, [T3A, T3B], [T3A, T3B, T3S]);
 
     // ---- C03: order / equality for every (Self, Other) with PartialOrd<Other> + PartialEq<Other>
-    cross!(v, "C03", c03, [SH, SB, SV, SA2, SS, SO, SE], [SH, SB, SV, SA2, SS, SO, SE]);
-    cross!(v, "C03", c03, [SA1, SA3], [SH, SB, SA1, SA3]);
-    cross!(v, "C03", c03, [SH, SB], [SA1, SA3]);
-    cross!(v, "C03", c03, [MHH, MBB, MVH, MA2S, MSS, MSH, MOO, MEH], [MHH, MBB, MVH, MA2S, MSS, MSH, MOO, MEH]);
-    cross!(v, "C03", c03, [MA1B], [MHH, MBB, MA1B]);
-    cross!(v, "C03", c03, [MHH, MBB], [MA1B]);
-    cross!(v, "C03", c03, [NHX, NBX, NVX, NA2X, NSX, NOX], [NHX, NBX, NVX, NA2X, NSX, NOX]);
-    cross!(v, "C03", c03, [PHW, PBW, PVW, PSW], [PHW, PBW, PVW, PSW]);
-    cross!(v, "C03", c03, [QH, QB, QS], [QH, QB, QS]);
-    cross!(v, "C03", c03, [RH, RB_, RS], [RH, RB_, RS]);
-    each!(v, "C03", c03_self, [XU, Max<i8>, Max<bool>, Max<char>, Max<u64>, Min<u8>, Min<i8>, Min<bool>, Min<char>, Min<u64>, WXU, WXB, TXU, TXB, TNB, WWH, WTX, PTX, PHH, DX, VX, VW, CF, D3, ()]);
-    cross!(v, "C03", c03, [WH, WB, WS, WO], [WH, WB, WS, WO]);
-    cross!(v, "C03", c03, [TH, TB, TS], [TH, TB, TS]);
-    cross!(v, "C03", c03, [WTH, WTB, WTS], [WTH, WTB, WTS]);
-    cross!(v, "C03", c03, [TWH, TWS], [TWH, TWS]);
-    cross!(v, "C03", c03, [PA, PB, PS], [PA, PB, PS]);
-    cross!(v, "C03", c03, [DA, DB, DS], [DA, DB, DS]);
-    cross!(v, "C03", c03, [DN, DNS], [DN, DNS]);
-    cross!(v, "C03", c03, [DP, DPS], [DP, DPS]);
-    cross!(v, "C03", c03, [VH, VB, VS], [VH, VB, VS]);
-    cross!(v, "C03", c03, [VM, VMS], [VM, VMS]);
-    cross!(v, "C03", c03, [UH, UB], [UH, UB]);
-    cross!(v, "C03", c03, [D2H, D2B, D2S], [D2H, D2B, D2S]);
-    cross!(v, "C03", c03, [T3A, T3B, T3S], [T3A, T3B, T3S]);
+    cross!(v, k_c03, [SH, SB, SV, SA2, SS, SO, SE], [SH, SB, SV, SA2, SS, SO, SE]);
+    cross!(v, k_c03, [SA1, SA3], [SH, SB, SA1, SA3]);
+    cross!(v, k_c03, [SH, SB], [SA1, SA3]);
+    cross!(v, k_c03, [MHH, MBB, MVH, MA2S, MSS, MSH, MOO, MEH], [MHH, MBB, MVH, MA2S, MSS, MSH, MOO, MEH]);
+    cross!(v, k_c03, [MA1B], [MHH, MBB, MA1B]);
+    cross!(v, k_c03, [MHH, MBB], [MA1B]);
+    cross!(v, k_c03, [NHX, NBX, NVX, NA2X, NSX, NOX], [NHX, NBX, NVX, NA2X, NSX, NOX]);
+    cross!(v, k_c03, [PHW, PBW, PVW, PSW], [PHW, PBW, PVW, PSW]);
+    cross!(v, k_c03, [QH, QB, QS], [QH, QB, QS]);
+    cross!(v, k_c03, [RH, RB_, RS], [RH, RB_, RS]);
+    each!(v, k_c03s, [XU, Max<i8>, Max<bool>, Max<char>, Max<u64>, Min<u8>, Min<i8>, Min<bool>, Min<char>, Min<u64>, WXU, WXB, TXU, TXB, TNB, WWH, WTX, PTX, PHH, DX, VX, VW, CF, D3, ()]);
+    cross!(v, k_c03, [WH, WB, WS, WO], [WH, WB, WS, WO]);
+    cross!(v, k_c03, [TH, TB, TS], [TH, TB, TS]);
+    cross!(v, k_c03, [WTH, WTB, WTS], [WTH, WTB, WTS]);
+    cross!(v, k_c03, [TWH, TWS], [TWH, TWS]);
+    cross!(v, k_c03, [PA, PB, PS], [PA, PB, PS]);
+    cross!(v, k_c03, [DA, DB, DS], [DA, DB, DS]);
+    cross!(v, k_c03, [DN, DNS], [DN, DNS]);
+    cross!(v, k_c03, [DP, DPS], [DP, DPS]);
+    cross!(v, k_c03, [VH, VB, VS], [VH, VB, VS]);
+    cross!(v, k_c03, [VM, VMS], [VM, VMS]);
+    cross!(v, k_c03, [UH, UB], [UH, UB]);
+    cross!(v, k_c03, [D2H, D2B, D2S], [D2H, D2B, D2S]);
+    cross!(v, k_c03, [T3A, T3B, T3S], [T3A, T3B, T3S]);
     // naive_cmp (needs Merge in both directions)
-    cross!(v, "C03", c03n, [SH, SB], [SH, SB]);
-    cross!(v, "C03", c03n, [MHH, MBB], [MHH, MBB]);
-    cross!(v, "C03", c03n, [NHX, NBX], [NHX, NBX]);
-    cross!(v, "C03", c03n, [PHW, PBW], [PHW, PBW]);
-    cross!(v, "C03", c03n, [WH, WB], [WH, WB]);
-    cross!(v, "C03", c03n, [TH, TB], [TH, TB]);
-    cross!(v, "C03", c03n, [WTH, WTB], [WTH, WTB]);
-    cross!(v, "C03", c03n, [PA, PB], [PA, PB]);
-    cross!(v, "C03", c03n, [DA, DB], [DA, DB]);
-    cross!(v, "C03", c03n, [VH, VB], [VH, VB]);
-    cross!(v, "C03", c03n, [UH, UB], [UH, UB]);
-    cross!(v, "C03", c03n, [D2H, D2B], [D2H, D2B]);
-    cross!(v, "C03", c03n, [T3A, T3B], [T3A, T3B]);
-    each!(v, "C03", c03n_self, [QH, RH, XU, Max<bool>, Max<char>, Min<u8>, Min<i8>, Min<u64>, WXU, WXB, TXU, TXB, TNB, TWH, WWH, WTX, PTX, PHH, DN, DX, DP, VX, VM, VW, CF, D3, ()]);
+    cross!(v, k_c03n, [SH, SB], [SH, SB]);
+    cross!(v, k_c03n, [MHH, MBB], [MHH, MBB]);
+    cross!(v, k_c03n, [NHX, NBX], [NHX, NBX]);
+    cross!(v, k_c03n, [PHW, PBW], [PHW, PBW]);
+    cross!(v, k_c03n, [WH, WB], [WH, WB]);
+    cross!(v, k_c03n, [TH, TB], [TH, TB]);
+    cross!(v, k_c03n, [WTH, WTB], [WTH, WTB]);
+    cross!(v, k_c03n, [PA, PB], [PA, PB]);
+    cross!(v, k_c03n, [DA, DB], [DA, DB]);
+    cross!(v, k_c03n, [VH, VB], [VH, VB]);
+    cross!(v, k_c03n, [UH, UB], [UH, UB]);
+    cross!(v, k_c03n, [D2H, D2B], [D2H, D2B]);
+    cross!(v, k_c03n, [T3A, T3B], [T3A, T3B]);
+    each!(v, k_c03ns, [QH, RH, XU, Max<bool>, Max<char>, Min<u8>, Min<i8>, Min<u64>, WXU, WXB, TXU, TXB, TNB, TWH, WWH, WTX, PTX, PHH, DN, DX, DP, VX, VM, VW, CF, D3, ()]);
     // partial-order laws on triples
-    each!(v, "C03", c03t, [
+    each!(v, k_c03t, [
         SH, SB, SV, MHH, MBB, MVH, NHX, NVX, PHW, QH, RH, XU, Max<i8>, Max<bool>, Max<char>, Min<u8>, Min<u64>,
         WH, WXU, WXB, TH, TXU, TXB, WTH, TWH, WWH, WTX, PA, PTX, PHH, DA, DN, DX, DP, VX, VH, VM, VW, UH, UB, CF, D2H, D3, T3A, ()
     ]);
     // is_bot / is_top
-    each!(v, "C03", c03u, [
+    each!(v, k_c03u, [
         SH, SB, SV, SRaw, SA1, SA2, SA3, SS, SO, SE, MHH, MBB, MA2S, MA1B, MSS, MSH, MOO, MEH, NHX, NBX, NA2X, NSX, NOX,
         PHW, PBW, PSW, QH, QB, QS, RH, RB_, RS,
         XU, Max<i8>, Max<bool>, Max<char>, Max<u64>, Min<u8>, Min<i8>, Min<bool>, Min<char>, Min<u64>,
@@ -376,7 +407,7 @@ pub fn entries() -> Vec<Entry> {
         UH, UB, UV, UA2, US, UO, UE, CF, D2H, D2B, D2S, D3, T3A, T3B, T3S, ()
     ]);
     // Default is bottom
-    each!(v, "C03", c03d, [
+    each!(v, k_c03d, [
         SH, SB, SO, SE, MHH, MBB, MOO, MEH, NHX, NBX, NOX, PHW, PBW, QH, QB, RH, RB_,
         XU, Max<i8>, Max<bool>, Max<char>, Max<u64>, Min<u8>, Min<i8>, Min<bool>, Min<char>, Min<u64>,
         WH, WB, WS, WO, WXU, WXB, TH, TB, TXU, TXB, TNB, WTH, WTB, WTS, TWH, TWS, WWH, WTX,
@@ -384,26 +415,8 @@ pub fn entries() -> Vec<Entry> {
     ]);
 
     // ---- C06: every Atomize type with a Default
-    each!(v, "C06", c06, [SH, SB, MHH, MBB, PHW, PBW, QH, QB, WH, WB, TH, TB, WTH, WTB, TWH, WWH, UH, UB, ()]);
+    each!(v, k_c06, [SH, SB, MHH, MBB, PHW, PBW, QH, QB, WH, WB, TH, TB, WTH, WTB, TWH, WWH, UH, UB, ()]);
 
     v
 }
 
-pub fn c02_self<T>(cx: &mut Ctx, inp: Option<&Value>)
-where
-    T: Lat + lattices::Merge<T>,
-{
-    c02::<T, T>(cx, inp)
-}
-pub fn c03_self<T>(cx: &mut Ctx, inp: Option<&Value>)
-where
-    T: Lat + PartialOrd<T> + PartialEq<T>,
-{
-    c03::<T, T>(cx, inp)
-}
-pub fn c03n_self<T>(cx: &mut Ctx, inp: Option<&Value>)
-where
-    T: Lat + lattices::Merge<T> + PartialOrd<T>,
-{
-    c03n::<T, T>(cx, inp)
-}
